@@ -2,7 +2,8 @@
 harness/ecref.py and hashlib only (never through bip_utils, PyNaCl or ed25519_blake2b)."""
 import hashlib
 
-import ecref
+import ecref  # noqa: F401
+import deriv_fastec as F
 
 
 def ed25519_pub(variant, seed):
@@ -10,11 +11,14 @@ def ed25519_pub(variant, seed):
     seed = bytes(seed)
     if len(seed) != 32:
         return b""
-    if variant == 0:
-        h = lambda b: hashlib.sha512(b).digest()  # noqa: E731
-    else:
-        h = lambda b: hashlib.blake2b(b, digest_size=64).digest()  # noqa: E731
-    return ecref.ED25519.pub_rfc8032(seed, h)
+    return F.ed_pub(seed, "sha512" if variant == 0 else "blake2b")
 
 
-ORACLES = {"ed25519_pub": ed25519_pub}
+def deriv_ec_mul(c, k, P):
+    """k*P on secp256k1 (0) / nist256p1 (1), points as [] or [x, y] -- same convention as oracles.ec_mul,
+    Jacobian arithmetic of deriv_fastec (cross-checked against ecref on every run)."""
+    R = F.w_mul(c, k, tuple(P) if P else None)
+    return [] if R is None else [R[0], R[1]]
+
+
+ORACLES = {"ed25519_pub": ed25519_pub, "deriv_ec_mul": deriv_ec_mul}
